@@ -249,6 +249,11 @@ def v3_layout(spec):
         singles.append(['strings', {s: i for i, s in table}])
     for (kind, val), pos in zip(singles, spec['singles_pos']):
         seq.insert(pos % (len(seq) + 1), [kind, val])
+    # a dict-valued section may come in a second block (a later snapshot): spec['processes2'] / spec['images2']
+    for kind in ('processes', 'images'):
+        v2 = spec.get(kind + '2')
+        if v2 is not None and spec[kind] is not None:
+            seq.insert((len(v2) + len(seq)) % (len(seq) + 1), [kind, v2])
     blocks = []
     xml = list(spec['xml'])
     for i, (kind, val) in enumerate(seq):
